@@ -400,7 +400,7 @@ func (C11Iso) Events(env world.Env, mm mc.Model) []string {
 	evs = append(evs, "DeleteNotifVariant:N:0", "DeleteNotifVariant:N:1", "DeleteNotifVariant:N:2", "DeleteFileVariant:N")
 	evs = append(evs, "PostSameFile:N")   // N posts the same content as O (in O's posting block: same content and start, other owner)
 	nj := world.MineAcctName("NJ", "jkl") // the account whose address ends in "jkl" acts in its own name
-	evs = append(evs, "BlockSenders:"+nj, "NotifyO:"+nj)
+	evs = append(evs, "BlockSenders:"+nj)
 	if mm.(c11Model).Blocks < 1 {
 		evs = append(evs, "NextBlock")
 	}
@@ -525,7 +525,7 @@ func (C11Iso) Apply(env world.Env, mm mc.Model, ev string) mc.Step {
 	if res.OK() {
 		st.Outcome = "ok"
 	}
-	if p[1] == "N" {
+	if p[1] != "O" { // every signer other than O
 		st.Exercised = append(st.Exercised, "non-owner-message")
 		var diff []string
 		for k, v := range before {
@@ -542,7 +542,7 @@ func (C11Iso) Apply(env world.Env, mm mc.Model, ev string) mc.Step {
 		}
 		sort.Strings(diff)
 		if len(diff) > 0 {
-			st.Viols = append(st.Viols, viol("affects-only-the-creators-own-resource", p[0], "%s signed by N changed records belonging to O: %v", ev, diff))
+			st.Viols = append(st.Viols, viol("affects-only-the-creators-own-resource", p[0], "%s signed by %s changed records belonging to O: %v", ev, p[1], diff))
 		}
 		_ = o
 	}
